@@ -73,3 +73,44 @@ def make():
     b = gram.Built(spec, CLASSES, {c: i for i, c in enumerate(CLASSES)})
     b.grammar = extract_grammar([Let, Var, Literal], Expr)
     return spec, b
+
+
+# ---------------------------------------------------------------------------------------
+# a refinement that sometimes asks the synthesiser for a class the grammar does not know
+# ---------------------------------------------------------------------------------------
+
+class XExpr(ABC):
+    pass
+
+
+@dataclass
+class XLit(XExpr):
+    v: Annotated[int, IntRange(0, 9)]
+
+
+@dataclass
+class XSpecial(XExpr):      # deliberately NOT listed in extract_grammar and mentioned by no field
+    k: Annotated[int, IntRange(0, 1)]
+
+
+class SometimesSpecial(MetaHandlerGenerator):
+    """asks `rec` for XSpecial one time in four (an extension point the grammar was not told about: that creation fails)"""
+
+    def validate(self, v) -> bool:
+        return True
+
+    def generate(self, random, grammar, base_type, rec, dependent_values):
+        if random.randint(0, 3) == 0:
+            return rec(XSpecial)
+        return rec(base_type)
+
+
+@dataclass
+class XAdd(XExpr):
+    l: Annotated[XExpr, SometimesSpecial()]
+    r: XExpr
+
+
+def unknown_symbol_grammar():
+    from geneticengine.grammar.grammar import extract_grammar
+    return extract_grammar([XLit, XAdd], XExpr)
